@@ -10,9 +10,9 @@ extern "C" {
 #include "a/str.h"
 }
 
-enum { L_CP, L_LEN2, L_LEN3, L_LEN4, L_LEN5, L_LEN6, L_BOUNDARY, L_BYTES, L_MALFORMED_REJECTED, L_MULTI_ACCEPTED, L_STRAY_CONT, L_FE_FF, L_TRUNCATED, L_LENGTH, L_LENGTH_STOPS_EARLY, L_WELLFORMED, L_TEXT, L_TEXT_NUL, L_STR_OBJECT, L_RELATED_CP };
+enum { L_CP, L_LEN2, L_LEN3, L_LEN4, L_LEN5, L_LEN6, L_BOUNDARY, L_BYTES, L_MALFORMED_REJECTED, L_MULTI_ACCEPTED, L_STRAY_CONT, L_FE_FF, L_TRUNCATED, L_LENGTH, L_LENGTH_STOPS_EARLY, L_WELLFORMED, L_TEXT, L_TEXT_NUL, L_STR_OBJECT, L_RELATED_CP, L_APPENDED_AFTER_CUT };
 static char const *const labels[] = {"code_point_round_trip", "len2", "len3", "len4", "len5", "len6", "length_boundary_code_point", "arbitrary_bytes", "malformed_rejected",
-                                     "multibyte_accepted", "stray_continuation_lead", "lead_FE_or_FF", "truncated_sequence", "length_counter", "length_counter_stops_before_end", "wellformed_string", "mostly_ascii_text_up_to_256_code_points", "text_with_embedded_nul", "string_object_cut_inside_a_character", "appended_code_point_related_to_the_previous_one_surrogate_halves", nullptr};
+                                     "multibyte_accepted", "stray_continuation_lead", "lead_FE_or_FF", "truncated_sequence", "length_counter", "length_counter_stops_before_end", "wellformed_string", "mostly_ascii_text_up_to_256_code_points", "text_with_embedded_nul", "string_object_cut_inside_a_character", "appended_code_point_related_to_the_previous_one_surrogate_halves", "string_object_appended_to_after_a_cut_inside_a_character", nullptr};
 static char const *const metrics[] = {nullptr};
 static uint8_t const dict[] = {0xC0, 0xC2, 0xDF, 0xE0, 0xEF, 0xF0, 0xF7, 0xF8, 0xFB, 0xFC, 0xFD, 0xFE, 0xFF, 0x80, 0xBF, 0x00};
 static vp_info const info = {"C18", "utf8", "", labels, metrics, 64, dict, sizeof(dict)};
@@ -180,6 +180,17 @@ static void run_case(Tape &t, Ctx &cx)
         {
             if (t.coin()) { (void)a_str_getc_(&st); }
             else { a_str_setn_(&st, a_str_len(&st) - 1); }
+        }
+        // ... and appended to again (code points and raw bytes): an interrupted character is now in the interior of the string
+        {
+            unsigned more = t.u8() % 4;
+            for (unsigned i = 0; i < more; ++i)
+            {
+                uint8_t mb = t.u8();
+                if (mb & 1) { if (a_utf_catc(&st, (mb & 2) ? gen_cp(t, cx) : uint32_t('a' + mb % 26)) != A_SUCCESS) { return; } }
+                else { if (a_str_catc_(&st, (mb & 2) ? int(0xC0 | (mb >> 3)) : int('0' + mb % 10)) == ~0) { return; } }
+            }
+            if (more) { cx.label(L_APPENDED_AFTER_CUT); }
         }
         size_t len = a_str_len(&st);
         cx.hash.add(cutn | (len << 8));
